@@ -76,8 +76,10 @@ def run_case(c):
     r = new_result()
     V = r['violations']
     n = c['rings']
+    # unequal wall and bypass thicknesses (inside out) so that index slips between ducts show
     dsn = S.design(n, pd=c['pd'], ducts=c['ducts'], wire=c['wire'],
-                   clearance=c['clr'], oftf=0.012 * n + 0.03)
+                   clearance=c['clr'], oftf=0.012 * n + 0.03,
+                   duct_t=[0.002, 0.003, 0.0035][:c['ducts']], byp_t=[0.0025, 0.004])
     P, D = dsn['pin_pitch'], dsn['pin_diameter']
     Dw, Pw = dsn['wire_diameter'], dsn['wire_pitch']
     ftf = dsn['duct_ftf']
